@@ -4,7 +4,7 @@ import json
 CLAIMS = {
  'C18': dict(
   text="Deductive proof, for all inputs: the four JsonUtil functions are symbolically executed from /repo's current source against sidecar contracts whose postconditions are the statement's spec functions (json round trip rt, JSON equality jeq, hashable form hsh); the code-independent spec lemmas (jeq is an equivalence, 1==1.0, bool!=number, list==tuple, key lemma hsh-equal <=> jeq, rt yields sanitized values) are proved by structural induction; every obligation is discharged by z3 (cvc5 for z3's unknowns).",
-  note="Assumes: the PyV value model of spec/json_spec.py (dicts up to insertion order, -0.0==0.0, subclass instances do not override __str__/__int__/__float__/__eq__), Python dict/tuple ==/hash, no assumed axiom (the finite pigeonhole used in is_equal's dict branch is proved by induction as lemmas pigeonhole_*), termination not verified.",
+  note="Assumes: the PyV value model of spec/json_spec.py (dicts up to insertion order, -0.0==0.0, subclass instances do not override __eq__/__hash__ (overridden __str__/__int__/__float__ are modelled: str(v)/int(v)/float(v) of a subclass instance are unknown, str.__str__ & co. read the contents); strings are uninterpreted, so json's combination of surrogate pairs is outside the model (bounded stand-in json_laws)), Python dict/tuple ==/hash, no assumed axiom (the finite pigeonhole used in is_equal's dict branch is proved by induction as lemmas pigeonhole_*), termination not verified.",
   ref="DESIGN.md 4.1, 5 C18"),
  'C15': dict(
   text="Deductive proof over all paths of build_versioned, clean and Cache.read_immutable (read from /repo on every run): every exceptional exit of clean and read_immutable has an empty effect trace, no callback and an unchanged ghost file system; in build_versioned the first mutating primitive (mkdtemp of the backup directory) carries a guard obligation that every validation fact holds (name is a str, func callable, versions a JSON dict, cache path not a directory, stored build name equal) and that nothing happened before; every exceptional exit either has no effect or starts with that mkdtemp.",
